@@ -9,6 +9,9 @@ spec -> code : TLC generates every document of the bounded NF-DOC grammar of Dig
                Checked on every real tree: each child's parentNode is the node listing it, sections contain only paragraphs and
                strictly deeper sections, no paragraph directly inside a paragraph, typographic substitutions applied in text
                but not in \\verb or math.
+paragraphs   : Paragraphs.tla transcribes Macro.paragraphs (machine) against the cutting rule; TLC checks MachineIsRule and its consequences for
+               every content sequence of up to 6 / 7 items over {word, white space, \\par, block element, section-level element} x force,
+               and each sequence is rebuilt from real nodes and grouped by the real paragraphs().
 code -> spec : the documents under unittests/ (sources, benchmarks) are parsed and the tree clauses checked on them (thorough).
 """
 import glob
@@ -204,6 +207,100 @@ def check_subst(doc, src):
     return out
 
 
+CFG_PAR = '''CONSTANTS
+  MaxItems = %d
+  ContinueAfterSection = %s
+INIT Init
+NEXT Next
+CHECK_DEADLOCK FALSE
+INVARIANT MachineIsRule
+INVARIANT EveryWordInOneParagraph
+INVARIANT NoEmptyParagraph
+INVARIANT BlockAlone
+INVARIANT Emit
+'''
+
+
+def replay_paragraphs(beh):
+    """Paragraphs.tla -> Macro.paragraphs on real nodes: a container holding text, white space, \\par elements, a block-level
+    element and a section-level element without content, in the order of the behaviour"""
+    from plasTeX import TeXDocument, Node
+    d = TeXDocument()
+    box = d.createElement('center')
+    n = 0
+    for k in beh['items'] or []:
+        n += 1
+        if k == 't':
+            box.append(d.createTextNode('w%d' % n))
+        elif k == 'w':
+            box.append(d.createTextNode(' '))
+        elif k == 'p':
+            box.append(d.createElement('par'))
+        elif k == 'b':
+            e = d.createElement('quote')
+            e.blockType = True
+            box.append(e)
+        elif k == 's':
+            box.append(d.createElement('printindex'))
+    try:
+        box.paragraphs(force=beh['force'])
+    except Exception as ex:
+        return 'raise', 'paragraphs() on %s raised %s: %s' % (beh['items'], type(ex).__name__, ex)
+
+    def kinds(node):
+        out = []
+        for c in node.childNodes:
+            if c.nodeType == Node.TEXT_NODE:
+                # normalize() merges neighbours: read the words / white space back
+                for m in re.finditer(r'w\d+|\s+', str(c)):
+                    out.append('t' if m.group(0).startswith('w') else 'w')
+            elif c.nodeName == 'quote':
+                out.append('b')
+            elif c.nodeName == 'printindex':
+                out.append('s')
+            elif c.nodeName == 'par':
+                out.append('p')
+            else:
+                out.append('?' + str(c.nodeName))
+        return out
+    got = []
+    for c in box.childNodes:
+        if c.nodeType != Node.TEXT_NODE and c.nodeName == 'par' and (beh['force'] or 'p' in (beh['items'] or [])):
+            got.append({'k': 'par', 'c': kinds(c)})
+        else:
+            for k in kinds_of_one(c, Node):
+                got.append({'k': k, 'c': []})
+    want = [{'k': r['k'], 'c': list(r['c'] or [])} for r in (beh['result'] or [])]
+    # white space inside a paragraph is merged by normalize(): compare with runs of "w" collapsed
+    def squeeze(seq):
+        out = []
+        for x in seq:
+            if x == 'w' and out and out[-1] == 'w':
+                continue
+            out.append(x)
+        return out
+    g = [{'k': x['k'], 'c': squeeze(x['c'])} for x in got]
+    w = [{'k': x['k'], 'c': squeeze(x['c'])} for x in want]
+    # outside paragraphs adjacent text items are separate nodes or merged alike: collapse runs of the same inline kind
+    def flat(seq):
+        out = []
+        for x in seq:
+            if x['k'] == 'w' and out and out[-1]['k'] == 'w':
+                continue
+            out.append(x)
+        return out
+    if flat(g) != flat(w):
+        kind = 'ungrouped' if any(x['k'] in ('t', 'w') for x in g) and (beh['force'] or 'p' in (beh['items'] or [])) else 'structure'
+        return 'paragraphs:' + kind, 'paragraphs(force=%s) on %s gives %s, specification %s' % (beh['force'], beh['items'], g, w)
+    return 'ok', ''
+
+
+def kinds_of_one(c, Node):
+    if c.nodeType == Node.TEXT_NODE:
+        return ['t' if m.group(0).startswith('w') else 'w' for m in re.finditer(r'w\d+|\s+', str(c))]
+    return [{'quote': 'b', 'printindex': 's', 'par': 'p'}.get(c.nodeName, '?' + str(c.nodeName))]
+
+
 def replay_one(args):
     beh, salt = args
     from plasTeX.TeX import TeX
@@ -288,6 +385,20 @@ def run(chk):
             chk.violation('replay:' + kind, msg, {'stream': beh['stream']})
     chk.exhaustive = (len(behs) == len(res.beh))
     chk.extra['bounds'] = {'MaxItems': maxitems, 'MaxDepth': maxdepth}
+    # paragraph grouping: Paragraphs.tla against the real Macro.paragraphs
+    mp = 6 if tier == 'quick' else 7
+    rp = tlc.run('Paragraphs', cfg_text=CFG_PAR % (mp, 'FALSE' if os.environ.get('C07_ASBUILT') else 'TRUE'), timeout=3400, heap='8g')
+    chk.add_tlc(rp, 'paragraphs(MaxItems=%d)' % mp)
+    if not rp.ok:
+        chk.violation('design:paragraphs:' + ','.join(rp.violated or ['error']), 'Paragraphs.tla: %s\n%s' % (rp.violated, rp.trace_text[:2000]))
+    if not rp.beh:
+        raise MachineryError('C07: no paragraph behaviours emitted')
+    for beh, (kind, msg) in zip(rp.beh, pmap(replay_paragraphs, rp.beh, chunksize=500)):
+        its = beh['items'] or []
+        chk.case(['par', its, beh['force']], len(set(its)) >= 3)
+        chk.traces += 1
+        if kind != 'ok':
+            chk.violation('replay:' + kind, msg, beh)
     if tier == 'thorough':
         files = sorted(glob.glob(os.path.join(REPO, 'unittests', 'sources', '*.tex')) + glob.glob(os.path.join(REPO, 'unittests', 'benchmarks', '*.tex')))
         outs = pmap(check_file, files, chunksize=1)
